@@ -23,6 +23,7 @@ theorems) keeps their former counter-examples as statements about the OLD checks
 import CaddyModel.C13.Lemmas
 import CaddyModel.C13.Witness
 import CaddyModel.C13.ListenLemmas
+import CaddyModel.C13.Caddyfile
 import CaddyModel.Gen.AdminGate
 
 namespace CaddyModel.C13
@@ -144,6 +145,35 @@ theorem unix_listen_string_not_enforced (cfg : AdminCfg) (path dflt : Bytes) (ip
   · have : Addr.isUnix ⟨sUnix, path, 0, ip⟩ = true := by show hasPrefix sUnix sUnix = true; decide
     simp [newAdminHandler, allowedOrigins, this]
     cases cfg.origins <;> rfl
+
+-- ================================================================ the Caddyfile `admin` option (where the enforce flag and the origins come from)
+
+/-- **`enforce_origin` is on only if the user wrote it**: whatever the `admin` option's arguments and
+    block are, the adapted AdminConfig has the flag set only if some line of the block contains
+    the token `enforce_origin` (there is no other way to switch origin enforcement on, and it
+    defaults to off). -/
+theorem caddyfile_enforce_origin_only_if_written (dflt : Bytes) (args : List Bytes)
+    (block : Option (List (List Bytes))) (a : CfAdmin)
+    (hp : parseOptAdmin dflt args block = some a) (he : a.enforceOrigin = true) :
+    ∃ ls, block = some ls ∧ ∃ l ∈ ls, sEnforceOrigin ∈ l := by
+  rcases parseOptAdmin_cases dflt args block a hp with h | ⟨a0, a1, h0, _, hb, heq, _⟩
+  · subst h; cases he
+  · rcases (cfBlock_inv _ a0 a1 hb).1 (heq ▸ he) with h | ⟨l, hl, hm⟩
+    · rw [h0] at h; cases h
+    · cases block with
+      | none => simp [blockLines] at hl
+      | some ls => exact ⟨ls, rfl, l, hl, hm⟩
+
+/-- **the Caddyfile cannot express "no origin is allowed"**: the adapted `origins` is never the
+    empty list — `origins` without arguments yields the nil list, i.e. the DEFAULT origins of the
+    listen address (unlike JSON `"origins": []`, which allows nothing). -/
+theorem caddyfile_origins_never_empty (dflt : Bytes) (args : List Bytes)
+    (block : Option (List (List Bytes))) (a : CfAdmin)
+    (hp : parseOptAdmin dflt args block = some a) : a.origins ≠ some [] := by
+  rcases parseOptAdmin_cases dflt args block a hp with h | ⟨a0, a1, _, h0, hb, _, heq⟩
+  · subst h; simp
+  · rw [heq]
+    exact (cfBlock_inv _ a0 a1 hb).2.1 (by rw [h0]; simp)
 
 -- ================================================================ local endpoint: Origin
 
@@ -431,6 +461,15 @@ example : parseAdminListenAddr (str "[::1]:2019") [] = .ok sTcp (str "::1") 2019
 example : (localEndpoint exCfg (str ":2019") [] .notIP []).map (·.enforceHost) = some false
     ∧ (localEndpoint exCfg (str "unix//run/caddy.sock") [] .notIP []).map (·.enforceHost) = some false
     ∧ (localEndpoint exCfg (str "localhost:2019") [] .notIP []).map (·.enforceHost) = some true := by decide
+-- caddyfile_*: `admin localhost:2019 { enforce_origin \n origins a b }`, `admin off`, `origins` without arguments
+example : parseOptAdmin (str "d") [str "localhost:2019"] (some [[sEnforceOrigin], [sOrigins, str "a", str "b"]])
+      = some ⟨false, str "localhost:2019", true, some [str "a", str "b"]⟩
+    ∧ parseOptAdmin (str "d") [sOff] none = some ⟨true, [], false, none⟩
+    ∧ parseOptAdmin (str "d") [sOff] (some []) = none
+    ∧ parseOptAdmin (str "d") [] (some [[sOrigins, str "a"], [sOrigins]]) = some ⟨false, str "d", false, none⟩
+    ∧ parseOptAdmin (str "d") [] (some [[sEnforceOrigin, str "x"]]) = none
+    ∧ parseOptAdmin (str "d") [] (some [[sEnforceOrigin, sOrigins, sEnforceOrigin]])
+        = some ⟨false, str "d", true, some [sEnforceOrigin]⟩ := by decide
 -- origin_gate / local_endpoint_rejects_foreign_origin: right Host, foreign Origin
 def exCsrf : Req := { exGood with origin := str "http://evil.com", originUrl := ⟨true, str "http", str "evil.com"⟩ }
 example : (newAdminHandler exCfg exAddr false exPats).enforceOrigin = true ∧
